@@ -21,7 +21,8 @@ CONSTANTS Mode,        \* "pregel" | "dag" | "wf"
           MaxMarks,    \* |before| + |after| + |rerun| <= MaxMarks
           AllowRerun, AllowFail, AllowMulti,
           MaxChoice,   \* set of max-step settings (0 = default) for pregel
-          MaxEnds      \* branches have 2..MaxEnds targets
+          MaxEnds,     \* branches have 2..MaxEnds targets
+          AllowOrphans \* acyclic modes: admit nodes that no control path from START reaches (finding D12)
 
 AllNames == <<"a", "b", "c", "d">>
 Nodes == {AllNames[i] : i \in 1..N}
@@ -74,6 +75,7 @@ WellFormed ==
   /\ IF Mode = "wf" THEN (\E d \in Nodes : CtrlEdge(START, d)) /\ (\E s \in Nodes : CtrlEdge(s, END))
      ELSE CtrlSucc(START) # {} /\ \E s \in Src : END \in CtrlSucc(s)
   /\ END \in Reach({START}, 6)                                   \* END reachable at all
+  /\ (Acyclic /\ ~AllowOrphans) => Nodes \subseteq Reach({START}, 6)
   /\ \A x \in edges : x[3] = "d" => x[2] \in CtrlDesc(x[1])      \* workflow: data-only edges need a control path
   /\ \A n \in Nodes : (\E x \in edges : x[2] = n /\ x[3] = "d") => \E s \in Src : n \in CtrlSucc(s)
 
